@@ -430,3 +430,44 @@ Proof.
   - intros b v lo hi. apply (C18_lfo_reconfig_range square R).
   - vm_compute. reflexivity.
 Qed.
+
+(** * Automation re-configured after construction (FIX-C18): range / boundaries / default_duration re-assigned,
+   also while moves are running *)
+(* the assignment calls nobody and leaves current_value, the moves under way and the bindings alone; the moves
+   then run exactly as they would have (same current_value after every number of ticks, hence the same arrival
+   tick and target), and what is reported after n ticks is that current_value clipped / wrapped into the range
+   NOW in force — inside [lo, hi] (clip) or [lo, hi) (wrap) by C18_range, which holds in any state.  The states so
+   reached are API-reachable, so C18_arrival_move_by covers moves made on a re-configured automation. *)
+Theorem C18_reconfig_auto : forall tpb n a r b d,
+  let a' := set_default (set_bound (set_range a r) b) d in
+  step tpb a (OSetRange r) = Some (set_range a r, [])
+  /\ step tpb a (OSetBound b) = Some (set_bound a b, [])
+  /\ step tpb a (OSetDefault d) = Some (set_default a d, [])
+  /\ a_cv (run_ticks n a') = a_cv (run_ticks n a)
+  /\ a_mods (run_ticks n a') = a_mods (run_ticks n a)
+  /\ a_binds (run_ticks n a') = a_binds a
+  /\ value (run_ticks n a') = report r b (a_cv (run_ticks n a))
+  /\ (reachable tpb a -> reachable tpb a').
+Proof.
+  intros tpb n a r b d. cbv zeta. destruct (reconfig_value n a r b d) as [A [B [C D]]]. cbv zeta in *.
+  repeat split; try assumption. intros R.
+  eapply reach_step; [eapply reach_step; [eapply reach_step; [exact R|]|]|];
+    [exact (eq_refl : step tpb a (OSetRange r) = _)
+    |exact (eq_refl : step tpb (set_range a r) (OSetBound b) = _)
+    |exact (eq_refl : step tpb (set_bound (set_range a r) b) (OSetDefault d) = _)].
+Qed.
+Print Assumptions C18_reconfig_auto.
+
+(* a move from 2 to 8 over 4 ticks under clip 0..10; after 2 ticks the range becomes 0..4 under wrap:
+   current_value goes 5, 6.5, 8 as it would have; reported: 5 -> 1 at the assignment, then 2.5, 0 *)
+Example C18_reconfig_auto_nonvacuous :
+  let a0 := new_automation (Some (0, 10)) Clip (Some 2) 0 in
+  match move_to 24 a0 8 (Some (4 # 24)) 0 with
+  | Some a1 =>
+      let a2 := run_ticks 2 a1 in
+      let a3 := set_bound (set_range a2 (Some (0, 4))) Wrap in
+      (Qred (value a2), Qred (value a3), Qred (value (run_ticks 1 a3)), Qred (value (run_ticks 2 a3)),
+       Qred (a_cv (run_ticks 2 a3)))
+  | None => (0, 0, 0, 0, 0)
+  end = (5, 1, 5 # 2, 0, 8).
+Proof. vm_compute. reflexivity. Qed.
